@@ -408,6 +408,7 @@ unsafe fn dispose_general_node<T: RcObject>(
                     RcInner::decrement_strong(rc, 1, Some(guard));
                     return;
                 }
+                vp!(CASC_MARK_CAS);
                 match rc.state.compare_exchange(
                     old.as_raw(),
                     old.with_destructed(true).as_raw(),
@@ -418,6 +419,7 @@ unsafe fn dispose_general_node<T: RcObject>(
                     Err(curr) => old = State::from_raw(curr),
                 }
             }
+            vev!(MARKED, ptr, depth);
         }
         vev!(DISPOSE, ptr, depth);
         rc.data_mut().pop_edges(&mut outgoings);
